@@ -194,6 +194,43 @@ class C10(F.PropCheck):
             evs += self.ticks(rng, (full + 3 * tilt_ms) * 1000 * 2 + 3000000, rng.choice(['exact10', 'jitter']), 0, maxn=5500)
         return evs, tags
 
+    def fam_autocal_pause_cmd(self, rng, tier):
+        """a STOP / UP / DOWN command lands inside one of the two 1 s start-delay pauses between the steps of an auto-calibration
+        (outputs off, delayed trigger armed); afterwards a percentage request: the calibration must end (aborted = step 0), and the new
+        request must calibrate and move"""
+        mu = rng.choice([1100, 1500, 2500]); md = rng.choice([1200, mu + 200, 1700]); ms = rng.choice([0, 100])
+        evs = [self.cfg(af=1, rf=1, pos0=0, mu=mu, md=md, ms=ms, margin=rng.choice([-1, 5]))] + [('CB', [10000, 2], b'')] * 3
+        evs.append(('TASK', [rng.randrange(0, 101), -1], b''))
+        which = rng.choice([1, 2])                              # pause after step 1 / after step 2
+        t_pause = 870 + (mu + ms) + (0 if which == 1 else 1010 + md + ms)      # ms after the trigger (cf. stuck_script)
+        at = t_pause + rng.choice([50, 150, 300, 500, 700, 900, rng.randrange(20, 990)])
+        evs += [('CB', [10000, 2], b'')] * (at // 10)
+        evs.append(('RELAY', [rng.choice([0, 0, 1, 2]), 1, rng.randrange(2)], b''))
+        evs += [('CB', [10000, 2], b'')] * rng.choice([500, 300])
+        evs.append(('TASK', [rng.choice([30, 0, 100, rng.randrange(0, 101)]), -1], b''))
+        evs += [('CB', [10000, 2], b'')] * ((2 * mu + md + 3 * ms + 3 * 1010 + mu + 3000) // 10)
+        return evs, ['autocal', 'command-in-step-pause%d' % which]
+
+    def fam_fb_retask(self, rng, tier):
+        """facade blind (types 1, 2): a second request while the first task is in any of its phases (start delay, positioning, reversal,
+        tilting up / down), including tilt-only (-1, t) and position-only (p, -1) requests"""
+        full = rng.choice([10000, 17300, 5000]); ttype = rng.choice([1, 2]); tilt_ms = rng.choice([1000, 2000, 1730])
+        pos0 = rng.choice([100, 10100, rng.randrange(100, 10101)]); tilt0 = rng.choice([100, 10100, rng.randrange(100, 10101)])
+        evs = [self.cfg(tilt_ms=tilt_ms, ttype=ttype, margin=rng.choice([-1, 5, 50]), pos0=pos0, tilt0=tilt0, t1=full, t2=full)] + [('CB', [10000, 0], b'')] * 3
+        p1, t1 = rng.choice([50, rng.randrange(0, 101)]), rng.choice([20, 80, rng.randrange(0, 101)])
+        evs.append(('TASK', [p1, t1], b''))
+        travel = abs(pos0 - 100 - 100 * p1) * full // 10000                   # ms
+        # second request: inside the start delay / positioning / around the reversal and the tilting phase at 100 ms resolution
+        at = rng.choice([rng.randrange(0, 1000), 1000 + rng.randrange(0, travel + 1), 1000 + travel + tilt_ms + rng.randrange(0, 1200 + tilt_ms),
+                         1000 + travel + tilt_ms + 1000 + rng.choice([100, 300, 500, 800])])
+        evs += [('CB', [10000, 0], b'')] * (at // 10 + 1)
+        kind = rng.random()
+        if kind < 0.4: evs.append(('TASK', [-1, rng.choice([60, 0, 100, rng.randrange(0, 101)])], b''))
+        elif kind < 0.6: evs.append(('TASK', [rng.randrange(0, 101), -1], b''))
+        else: evs.append(('TASK', [rng.randrange(0, 101), rng.randrange(0, 101)], b''))
+        evs += self.ticks(rng, (full + 3 * tilt_ms) * 1000 * 2 + 5000000, 'exact10', 0, maxn=6000)
+        return evs, ['fb-task', 'type%d' % ttype, 're-tasked-while-running']
+
     def fam_random(self, rng, tier):
         """unstructured command sequences for model/implementation correspondence"""
         ttype = rng.choice([0, 0, 1, 2, 3]); tilt_ms = 0 if ttype == 0 else rng.choice([0, 500, 2000])
@@ -224,7 +261,7 @@ class C10(F.PropCheck):
         C09MOD.run_batches(self, ctx, makers, 'batched_thorough')
 
     def gen_cases(self, rng, n, tier, prefix=''):
-        fams = [(self.fam_task_rs, 30), (self.fam_task_asym, 6), (self.fam_resend, 2), (self.fam_manual, 12), (self.fam_ten_minutes, 3), (self.fam_autocal, 12), (self.fam_autocal_stuck, 2), (self.fam_interrupt, 12),
+        fams = [(self.fam_task_rs, 30), (self.fam_task_asym, 6), (self.fam_resend, 2), (self.fam_manual, 12), (self.fam_ten_minutes, 3), (self.fam_autocal, 12), (self.fam_autocal_stuck, 2), (self.fam_autocal_pause_cmd, 5), (self.fam_fb_retask, 8), (self.fam_interrupt, 12),
                 (self.fam_fb, 10), (self.fam_random, 21)]
         tot = sum(w for _, w in fams); cases = []
         for i in range(n):
@@ -323,6 +360,17 @@ class C10(F.PropCheck):
                     v.append('auto-calibration ended at %d us with times %d/%d, position %d, flags %#x, outputs %d%d: neither the success nor the failure outcome' %
                              (t, st['aot'], st['act'], st['pos'], st['flags'], st['up_on'], st['down_on']))
             prev_step = st['step']
+        # ---- (2b) an auto-calibration in progress always has an output energised or its delayed trigger pending (the pauses between the
+        # steps are bridged by the trigger); "step > 0, both outputs off, nothing pending" after a callback can never end: stuck
+        stuck_since = None
+        for (e, t, edges, st) in tl:
+            if e[0] == 'CB' and st['step'] > 0 and not st['up_on'] and not st['down_on'] and not st['delayed']:
+                if stuck_since is None: stuck_since = t
+            else: stuck_since = None
+        if stuck_since is not None and tl[-1][1] - stuck_since > 1_200_000:
+            last = tl[-1][3]
+            v.append('auto-calibration stuck in step %d since %d us: both outputs off, no delayed trigger pending, flags %#x, task state %d: it can neither finish nor fail' %
+                     (last['step'], stuck_since, last['flags'], last['task_state']))
         # ---- (3) convergence of a positioning task on a calibrated roller shutter (last TASK of the case, no command after it)
         idx = [i for i, x in enumerate(tl) if x[0][0] != 'CB']
         # A tilt target on a roller shutter (tilt not supported) is outside the quantifier of the property ("tilt targets for blinds";
@@ -372,7 +420,7 @@ class C10(F.PropCheck):
                     if abs(rep(last['pos']) - target) > 1:
                         v.append('task to %d %% from raw position %d ended at position %d (reported %d): more than one point off [tau=%d full=%d ignored=%d]' %
                                  (target, raw0, last['pos'], rep(last['pos']), tau, full, ign))
-        # ---- (4) convergence of a task on a facade blind (tilt types 1..3), from rest, last command of the case.
+        # ---- (4) convergence of a task on a facade blind (tilt types 1..3), last command of the case (from rest or while a task runs).
         # Judged against the target add_task stored (it rewrites the request for type 3 and inherits -1 fields): the task ends
         # (outputs off, no trigger pending, task state inactive), the reported tilt is within one point of the tilt target and the
         # reported position within one point + the travel that tilting costs (100 * tilt time / travel time points) of the position target.
@@ -382,7 +430,7 @@ class C10(F.PropCheck):
             i0 = idx[-1]; (e, t_task, _, st0) = tl[i0]; before = tl[i0 - 1][3]
             full_o, full_c = before['time1'], before['time2']
             rest = not (before['up_on'] or before['down_on'] or before['delayed']) and before['task_state'] == 0
-            if (rest and st0['task_state'] != 0 and known(before['pos']) and known(before['tilt']) and before['step'] == 0
+            if (st0['task_state'] != 0 and known(before['pos']) and known(before['tilt']) and before['step'] == 0
                     and 500 <= full_o <= 600000 and 500 <= full_c <= 600000 and tilt_ms < min(full_o, full_c) and before['aot'] == 0 and before['act'] == 0):
                 tpos, ttilt = st0['task_pos'], st0['task_tilt']
                 fullm = max(full_o, full_c)
@@ -391,6 +439,9 @@ class C10(F.PropCheck):
                 travel = (abs(before['pos'] - 100 - tpos * 100) * fullm * 1000 // 10000) if tpos != -1 else 0
                 # position run (tilting first) + one reversal + tilt run, each with its start delay; end-stop margin; callback granularity
                 allow = travel + 3 * tilt_ms * 1000 + 1000 * (fullm * km // 100) + 2 * 1_001_000 + 8 * tau + 20_080
+                # request while the motor / an earlier task is running: one more reversal (stop, 1.001 s, way back over what was travelled
+                # in the wrong direction meanwhile: at most one tilt run + one callback)
+                if not rest: allow += 1_001_000 + 2 * tilt_ms * 1000 + 2 * tau
                 t_last = tl[-1][1]; last = tl[-1][3]
                 if t_last - t_task > allow:
                     if last['up_on'] or last['down_on'] or last['delayed'] or last['task_state'] != 0:
